@@ -185,6 +185,133 @@ def rule_tt4_addressing(report, prog, rule='C08-R2'):
                  '; '.join(problems[:3]), detail='folded for %d (NLEN width, capacity, announced length, MLe) points against a file that answers every offset' % n)
 
 
+def rule_tlv_length_guard(report, prog, rule='C08-R2'):
+    """Type 1 / Type 2 readers: the guard that compares the NDEF TLV value with the capacity is folded for message lengths 0, 1, 5 and
+    capacities -2 .. 4 (the capacity is negative when the TLV sits on the last bytes of the data area): it refuses exactly when the
+    message is longer than the capacity -- an empty message in an area that cannot even hold the TLV header included."""
+    for mod in ('tt1', 'tt2'):
+        q = 'nfc.tag.%s.Type%sTag.NDEF._read_ndef_data' % (mod, mod[2])
+        f = prog.func(q)
+        guard = None
+        for i in ast.walk(f.node):
+            if isinstance(i, ast.If) and live(i.body) and isinstance(last_live(i.body), (ast.Return, ast.Raise)) and \
+                    any(isinstance(e, ast.Compare) and 'capacity' in norm(e) and 'len(' in norm(e) for e in ast.walk(i.test)):
+                guard = i
+        if guard is None:
+            continue        # rule_length_vs_area reports the missing comparison
+        names = sorted(set(x.id for x in ast.walk(guard.test) if isinstance(x, ast.Name) and x.id not in ('len', 'self')))
+        bad = []
+        for ln in (0, 1, 5):
+            for cap in (-2, -1, 0, 1, 4):
+                env = {'self._capacity': cap, 'self.capacity': cap, 'capacity': cap}
+                for nme in names:
+                    env.setdefault(nme, bytearray(ln))
+                v = try_const(guard.test, env)
+                if v is None:
+                    bad.append('cannot fold `%s`' % norm(guard.test))
+                    break
+                if bool(v) != (ln > cap):
+                    bad.append('message of %d octets, capacity %d: %s' % (ln, cap, 'refused' if v else 'accepted'))
+        report.check(not bad, rule, key(q, 'the length guard refuses exactly the messages longer than the capacity (empty message, negative capacity included)'),
+                     f.loc(guard), '%s: `%s` -- %s' % (q.replace('nfc.tag.', ''), norm(guard.test), '; '.join(bad[:3])))
+
+
+def tag_cycles(prog, res, only=None):
+    """Call cycles among the functions of nfc.tag reachable from the public operations of every concrete tag class (class-rooted
+    resolution, so `self.m()` follows the override of that class).  -> (set of cycles as tuples of qualified names, functions visited)"""
+    import sys
+    from .c16 import public_api
+    found, visited = set(), set()
+    for c in tag_classes(prog):
+        if only is not None and c.module.name != only:
+            continue
+        entries = [(f, Ctx(c)) for _, f in sorted(public_api(prog, c).items())]
+        for k in prog.mro(c):
+            if isinstance(k, ClassInfo) and 'NDEF' in k.nested:
+                entries += [(f, Ctx(k.nested['NDEF'], c)) for _, f in sorted(public_api(prog, k.nested['NDEF']).items())]
+                break
+        edges, nodes, work = {}, {}, list(entries)
+        while work:
+            f, ctx = work.pop()
+            k = (f.qname, ctx.key() if hasattr(ctx, 'key') else None)
+            if k in nodes:
+                continue
+            nodes[k] = f
+            outs = set()
+            for call in ast.walk(f.node):
+                if not isinstance(call, ast.Call):
+                    continue
+                try:
+                    tg = res.callees(f, call, ctx, record=False)
+                except Exception:
+                    tg = []
+                for t in tg:
+                    if t.func is not None and t.func.qname.startswith('nfc.tag'):
+                        c2 = t.ctx if t.ctx is not None else ctx
+                        outs.add((t.func.qname, c2.key() if hasattr(c2, 'key') else None))
+                        work.append((t.func, c2))
+            edges[k] = outs
+        visited.update(q for q, _ in nodes)
+        color = {}
+        for root in sorted(nodes, key=str):
+            if root in color:
+                continue
+            stack = [(root, iter(sorted(edges.get(root, ()), key=str)))]
+            path = [root]
+            color[root] = 1
+            while stack:
+                u, it = stack[-1]
+                v = next(it, None)
+                if v is None:
+                    color[u] = 2
+                    stack.pop()
+                    path.pop()
+                    continue
+                if color.get(v) == 1:
+                    found.add(tuple(x[0] for x in path[path.index(v):]))
+                elif v not in color:
+                    color[v] = 1
+                    path.append(v)
+                    stack.append((v, iter(sorted(edges.get(v, ()), key=str))))
+    return found, visited
+
+
+def rule_no_recursion(report, prog, res, rule='C08-R3'):
+    """A tag operation that can call itself again repeats as often as the tag makes it: every call cycle in the tag cone has to count
+    down -- the recursive call passes `<parameter> - <positive constant>` and the function tests that parameter -- otherwise the
+    number of commands (and the stack depth: RecursionError) is the tag's choice.  The clean tree has no cycle at all; the rule is
+    seen to fire on an in-memory variant of Type4Tag.send_apdu that re-issues the command to itself (canary)."""
+    cycles, visited = tag_cycles(prog, res)
+    report.floor(rule + ' functions in the tag cone', len(visited), 150)
+    for cyc in sorted(cycles):
+        counted = False
+        f = prog.functions.get(cyc[0])
+        if len(cyc) == 1 and f is not None:
+            for call in ast.walk(f.node):
+                if isinstance(call, ast.Call) and norm(call.func).split('.')[-1] == f.name:
+                    for a in list(call.args) + [k.value for k in call.keywords]:
+                        if isinstance(a, ast.BinOp) and isinstance(a.op, ast.Sub) and isinstance(a.left, ast.Name) and a.left.id in f.params \
+                                and isinstance(try_const(a.right), int) and try_const(a.right) > 0 and any(
+                                    isinstance(t, ast.Compare) and a.left.id in [x.id for x in ast.walk(t) if isinstance(x, ast.Name)] for t in ast.walk(f.node)):
+                            counted = True
+        report.check(counted, rule, key(' -> '.join(cyc), 'call cycle in the tag cone counts down'), f.loc() if f is not None else None,
+                     'call cycle %s: nothing bounds how often a tag can make the reader go round it (unbounded commands, RecursionError out of tag.ndef)'
+                     % ' -> '.join(cyc + (cyc[0],)))
+    report.ok(rule, key('nfc.tag', 'every call cycle reachable from a tag operation counts down'), None,
+              detail='%d functions of nfc.tag visited from the public operations of every tag class, %d cycles' % (len(visited), len(cycles)))
+    # canary: the same search on a variant in which send_apdu answers a status word by calling itself
+    m = prog.modules['nfc.tag.tt4']
+    src = m.source if hasattr(m, 'source') else open(m.path).read()
+    anchor = '        apdu = self.transceive(apdu)\n'
+    if src.count(anchor) == 1:
+        from ..model import Program
+        variant = Program(src=prog.src, overrides={'nfc.tag.tt4': src.replace(anchor, anchor + '        if len(apdu) == 2 and apdu[0] == 0x6C:\n            return self.send_apdu(cla, ins, p1, p2, data, apdu[1])\n')})
+        vc, _ = tag_cycles(variant, Resolver(variant), only='nfc.tag.tt4')
+        report.canary('C08-R3 recursion canary', ('nfc.tag.tt4.Type4Tag.send_apdu',) in vc)
+    else:
+        report.canary('C08-R3 recursion canary', bool(cycles))       # anchor gone: only a tree that has a cycle of its own shows the rule firing
+
+
 def rule_progress(report, prog):
     n = 0
     # TLV walks: offset advances by tlv_l + 1 + (1|3) >= 1 on every cycle that does not leave the loop
@@ -435,7 +562,9 @@ def run(report, prog, tier):
     rule_escape(report, prog, res)
     rule_length_vs_area(report, prog)
     rule_tt4_addressing(report, prog)
+    rule_tlv_length_guard(report, prog)
     rule_progress(report, prog)
+    rule_no_recursion(report, prog, res)
     rule_result_arity(report, prog, res)
     rule_dispatch_tables(report, prog)
     report.trusted += ['interface summary of ContactlessFrontend.exchange / sense in reader mode (C13)',
